@@ -279,7 +279,7 @@ META = {
     ),
     "C06": M(
         "cluster",
-        "bounded-progress window monitor in virtual time over commit events",
+        "bounded-progress window monitor in virtual time over commit events; local obligation monitor (a leader entering its round through a TC proposes)",
         "Bounded restatement of liveness: with <= f crashed (and three consecutive live leaders in the rotation) and delays <= timeout/10 after GST, every live node's committed round grows in every window W = 6(f+1) timeouts + sync_retry + 10 s. Runs include crashes at random times and from the start, heavy pre-GST delays, nodes that boot late (round timers out of phase) and proposals that are slower than all other messages. Held within the bound on the runs made; not a proof of liveness.",
         "Premises are enforced by the scenario generator (no loss between live nodes, delay bound after GST); runs whose plan misses the premise are inconclusive. Slowdowns below the window are invisible.",
     ),
@@ -295,7 +295,7 @@ META.update({
     "C03": M("puppet", "online hook events checked offline against an independent voting-rule predicate; wire and signing-service taps as cross-checks",
              "Held on the executions produced: every vote event of every real node is checked (one per round, strictly increasing, none after own timeout of that round, safe extension per an independent predicate on the exact proposal voted) in puppet runs that deliberately offer the rejecting branches (second proposal after a vote, proposal after own timeout on the direct / sync-resumed / payload-resumed paths, gap without TC, TC of the wrong round, TC reporting a higher QC, qc.round >= round, stale and far-future rounds) and in cluster runs. Cross-checked against validly signed votes seen on the wire and every signature made by the signing service.",
              "Puppet inputs are any validly signed history (more than f 'faulty' keys), which is what a single node's local rule must withstand. Sampling of scripts and interleavings, not coverage."),
-    "C04": M("component + puppet", "by-construction verdict table for the five verify functions; begin/end state-snapshot non-interference monitor at the real node",
+    "C04": M("component + puppet", "by-construction verdict table for the five verify functions; begin/end state-snapshot non-interference monitor at the real node; independent re-check of every block the node votes for",
              "Verify functions are driven with messages whose validity is known from how they were built; at the real node every handled input that the independent checker classifies invalid must leave the state snapshot unchanged and cause no action event. Held on the cases generated.",
              "Expected verdicts come from construction plus an independent ed25519/stake checker; the twin-run comparison of DESIGN.md C04-2 is replaced by the begin/end snapshot form (Appendix F fallback)."),
     "C05": M("puppet", "offline justification monitor: commit events vs. blocks and certificates delivered to the node before them",
@@ -313,7 +313,7 @@ META.update({
     "C01": M("cluster", "global ancestor-chain monitor over the commit logs of all honest nodes under a Byzantine + scheduler adversary",
              "Held on the executions produced: thousands of commits per check across honest nodes, in runs with equivocating, withholding, stale-QC and replaying Byzantine leaders holding up to f stake, double votes, adversarial timeouts and honest-group splits, all lying on one chain. Random play reaches forks when certificate validation, quorum arithmetic, the commit rule or leader / signature checks are broken; breaks of the voting and pacemaker rules are caught by the local monitors that run in the same executions (see DESIGN.md 7.3 for which seeded change is caught by which check).",
              "Sampling of schedules and Byzantine strategies; n <= 7; the scripted playbooks of Appendix D are not implemented (DESIGN.md 9)."),
-    "C13": M("cluster", "end-to-end trace monitor (client transaction -> batch -> committed block -> re-opened store) on real full nodes; on-demand fetch scenario",
+    "C13": M("cluster", "end-to-end trace monitor (client transaction -> batch -> committed block -> re-opened store) on real full nodes; on-demand fetch scenario with stall / bounded-lag checks; request/retry monitor over the mempool synchronizer driven directly",
              "Held on the runs produced, with the premises checked per run (a view change in a fault-free run makes it inconclusive).",
              "Virtual time, delays <= 40 ms; one blocked mempool link per faulty run."),
     "C15": M("puppet", "process-wide panic hook plus functional probes after hostile bursts on all three ports, both builds; Miri on the decoders (thorough)",
